@@ -34,7 +34,7 @@ def parse_text_corr(ctx, name, flagsets, quick_len=3, thorough_len=4, extra_patt
         pats.append(''.join(rng.choice(toks) for _ in range(rng.randint(3, 10))))
     for _ in range(600 if ctx.quick else 6000):
         body = ''.join(rng.choice(['[:alpha:]', '[:digit:]', '[:xdigit:]', 'a-f', '0-9', 'A-Z', 'z-a', 'a', '_', '-', '.',
-                                   '\\]', '\\-', '!', '^', '[', '&&', '/']) for _ in range(rng.randint(1, 5)))
+                                   '\\]', '\\-', '!', '^', '[', '&&', '/', '[:punct:]', '+-0', '!-~', ',-.']) for _ in range(rng.randint(1, 5)))
         pats.append(rng.choice(['', 'a', '*', '?(']) + '[' + body + ']' + rng.choice(['', 'b', '*', ')']))
     pats += list(extra_patterns)
     pats = sorted(set(pats))
@@ -87,8 +87,8 @@ def directed_asts(res, mode, limit=150):
     F = corr.flags()
     out = []
     seen = set()
-    # shortest patterns first: they shrink the replay
-    for p, fv in sorted(res.get('disagreeing_patterns', []), key=lambda x: (len(x[0]), x[0])):
+    # corr.rank_disagreements ordered them: semantic differences first, shortest first (they shrink the replay)
+    for p, fv in res.get('disagreeing_patterns', []):
         ext = bool(fv & F['EXTMATCH'])
         if mode == 'flat':
             a = astparse.flat(p, ext)
